@@ -18,13 +18,42 @@ from props import c13_hist as hist
 ID = "C13"
 RULE = ("dense parameter grids (cut-off/centre in [1e-3, pi-1e-3], bandwidth in [1e-3, 1], delays 1..12, "
         "eta 1..6) for every strategy of lowpass/highpass/resonator/comb/gammatone plus random parameters in the "
-        "same ranges, Stream-valued parameters, erb/gammatone_erb_constants; a case is non-trivial when the "
-        "implementation returned a filter (no exception); distinct = distinct JSON case")
+        "same ranges, Stream-valued parameters, erb/gammatone_erb_constants; "
+        "histories (entry hist, harness/props/c13_hist.py): 1-4 designs of the same or of different strategies built from a "
+        "small heap of parameter objects that they SHARE (one Stream / Stream subclass with its own __iter__ / generator / "
+        "iterator / list / tuple / caller-made tee hub / ControlStream passed to two or three designs; numbers of type int, "
+        "float, Fraction, bool that compare equal, in both orders), builds before or after other designs were used, "
+        "instants taken one at a time in sequential / round-robin / random interleavings, control values changed between "
+        "instants and before the first one, calls that raise (non-integer comb delay, bandwidth None) among the builds; each "
+        "instant is compared with the Lean history spec (which value of each shared object it must get, the constant "
+        "design of those values, its contract record), the number of values pulled from every shared Stream / generator is "
+        "compared after every step, and after the history every caller's object must yield what the spec says (shared "
+        "iterator: the next unread values; list / tuple: unchanged; tee hub: a further copy starts at the first value; "
+        "control: its current value); "
+        "comb filters in the time domain for delays 13..300, 2^k-1 / 2^k / 2^k+1 for 2^k = 64..4096 (thorough: ..8192) and "
+        "1000..5000 on impulse / pseudo-random dyadic signals of length delay+3 (ff) or 2*delay+3 (fb, tau); one comb filter "
+        "object called on 1-4 signals (list / tuple / Stream / generator / iterator) whose outputs are alive together and "
+        "consumed sequentially / round-robin / randomly (entry combhist); constant lowpass / highpass / resonator / gammatone "
+        "designs run for 2000-5000 (thorough 20000) samples against the C04 difference equation on the model "
+        "coefficients (entry run); a case is non-trivial when the "
+        "implementation returned a filter (no exception; history: at least one instant read and no unexpected exception); "
+        "distinct = distinct JSON case")
 TRUSTED = [
     "hand-written generic Lean transcription ALV/Model/C13.lean of the design strategies (modelled, not verified: "
     "ZFilter/Poly operator plumbing that turns the design expression into coefficients, thub/Stream broadcasting)",
     "Float evaluation of the model (Lean runtime, C libm) vs CPython floats: compared with tolerance 1e-9*(1+|x|)",
     "poles of the real filter are computed by the harness from filt.denominator (closed form, orders 1 and 2)",
+    "histories: the constant designs of the model are pure functions of their arguments, so 'a design does not depend on "
+    "earlier calls, on the type of a number that compares equal, or on which other designs exist' holds for the model by "
+    "construction (nothing to prove); that the REAL code keeps no state between calls, does not modify or pre-read the "
+    "caller's parameter objects and treats equal numbers of different types alike is what the history cases test",
+    "histories: which python objects behave as a shared iterator (Stream, Stream subclass, generator, iterator), as a "
+    "re-iterable / tee'd object (list, tuple, caller's StreamTeeHub) or as a control (ControlStream) is the table "
+    "harness/props/c13_hist.py:PY_FLAV (modelled: python iterator protocol, itertools.tee, ControlStream's generator); the "
+    "coefficients of a time-varying design at an instant are read from the Stream objects in filt.numdict / filt.dendict, one "
+    "item per instant; the contract quantities of an instant are computed by the harness from those coefficient lists",
+    "entry run / combhist / long comb delays: the filter loop itself is C04's model (ALV.C04.fspec run by the driver on the "
+    "model coefficients); C13's own theorems comb_fb_eq_spec / comb_ff_eq_spec identify it with the difference equations",
 ]
 ASSUMPTIONS = [
     "cut-off / centre frequency in (0, pi), bandwidth > 0, delay >= 1, eta >= 1 (the property's quantifier)",
@@ -33,11 +62,26 @@ ASSUMPTIONS = [
     "(unconditionally for eta = 1)",
     "the branch `if not denR: denR = 1` of lowpass.z / highpass.z is unreachable with binary floats (no double has "
     "cos(x) == 0); it is covered by the theorems (cut-off pi/2 over the reals), not by the tie",
+    "histories: 'sample by sample' is read as: a design pulls exactly one value of each Stream-valued parameter for every "
+    "instant of its coefficients, when that instant is first requested, and none when it is built (otherwise a ControlStream "
+    "changed by the caller would act late, and designs sharing one Stream would not get consecutive values); the pull counts "
+    "of shared Stream / generator objects are compared after every step (signatures hist:pulls:more / fewer)",
+    "histories: iterables that are not Stream instances (generator, iterator, list, tuple) are outside the quantifier "
+    "('stream-valued'): a strategy may refuse them with a TypeError when called (today: exp(-cutoff), cos(freq) * number, "
+    "-delay / tau do); when it accepts them the coefficients must follow them sample by sample (list / tuple: every design "
+    "from the start)",
+    "histories: one shared-iterator object for BOTH arguments of one call is not generated (the order of the two pulls inside "
+    "one instant is an implementation detail); resonator.z_exp in histories uses centre frequencies in [0.6, 2.5] (complex "
+    "poles for every bandwidth <= 1; the real-pole regime is the recorded finding of the constant designs)",
+    "a call that raises (non-integer comb delay, bandwidth None): any exception kind is accepted, the shared objects must be "
+    "left as they were",
     "gains measured on the implementation are compared with tolerance 1e-8 + 64 ulp * condition number of the "
     "freq_response evaluation (sum|c_k| / |sum c_k z^k|); for gammatone.sampled with eta >= 5 at centre frequencies "
     "within ~1e-2 of 0 or pi rounding dominates and the unit-gain check becomes vacuous (histogram gammatone_gain_tolerance)",
 ]
-MANIFEST = {"technique": "Lean 4 proof over R of generic [TrigField] design definitions + Float twin tied to the implementation"}
+MANIFEST = {"technique": "Lean 4 proof over R of generic [TrigField] design definitions + Float twin tied to the implementation "
+                         "+ histories of designs sharing parameter objects (Lean state machine = state-free spec, proved) "
+                         "+ long-delay / long-run time-domain runs against the difference equations"}
 
 PI = math.pi
 LO, HI = 1e-3, PI - 1e-3
